@@ -2,7 +2,7 @@
    Model: coq/C14/Model.v (routines of src/particle.c in their order of checks); specification: a plain
    particle list with N_active / N_var / tree-present ([astate], [res_ok], [aspec]). *)
 From Coq Require Import List ZArith NArith Bool Arith Lia.
-From RV Require Import C14.Murmur C14.Model C14.ProofsA C14.ProofsB C14.ProofsC C14.PyLayer C14.Hybrid.
+From RV Require Import C14.Murmur C14.Model C14.ProofsA C14.ProofsB C14.ProofsC C14.PyLayer C14.Hybrid C14.HybridProofs.
 Import ListNotations.
 Close Scope N_scope.
 
@@ -80,32 +80,54 @@ Theorem C14_py_setitem : forall s k p s' r, wf s -> py_step s (PySet k p) = (s',
 Proof. exact py_setitem. Qed.
 Print Assumptions C14_py_setitem.
 
-(* ---- MERCURIUS bookkeeping of reb_simulation_remove_particle, dcrit part: coq/C14/Hybrid.v *)
-(* out-of-range index / variational particles: particles AND dcrit untouched *)
-Theorem C14_merc_invalid_untouched : forall s h z, ((z < 0 \/ Z.of_nat (sN s) <= z)%Z \/ sNvar s <> 0) ->
-  merc_remove s h z = (s, h, RFail).
-Proof. exact merc_invalid_untouched. Qed.
-Print Assumptions C14_merc_invalid_untouched.
+(* ---- MERCURIUS / TRACE bookkeeping of reb_simulation_remove_particle and reb_simulation_add:
+   coq/C14/Hybrid.v (model), coq/C14/HybridProofs.v *)
+(* a failed removal (out-of-range index, variational particles, tree + keep_sorted -- forced for the hybrid
+   integrators) leaves the particles, dcrit, encounter_map, encounter_N, encounter_N_active, current_Ks and
+   the flags exactly as they were *)
+Theorem C14_hybrid_fail_untouched : forall s h z keep s' h',
+  hremove s h z keep = (s', h', RFail) -> s' = s /\ h' = h.
+Proof. exact hremove_fail_untouched. Qed.
+Print Assumptions C14_hybrid_fail_untouched.
 
-(* the dcrit shift stays inside dcrit when dcrit covers all particles ... *)
-Theorem C14_merc_dcrit_safe_partial : forall s h z s' h' r, sN s <= length (dcrit h) ->
-  merc_remove s h z = (s', h', r) -> hoob h' = hoob h.
-Proof. exact merc_dcrit_safe_partial. Qed.
-Print Assumptions C14_merc_dcrit_safe_partial.
+Theorem C14_hybrid_invalid_fails : forall s h z keep,
+  ((z < 0 \/ Z.of_nat (sN s) <= z)%Z \/ sNvar s <> 0 \/ ((keep = true \/ kind h <> INone) /\ tree s = true)) ->
+  hremove s h z keep = (s, h, RFail).
+Proof. exact hremove_invalid_fails. Qed.
+Print Assumptions C14_hybrid_invalid_fails.
 
-(* ... and reads/writes past it otherwise (particles added since the last step: N_allocated_dcrit < N).
-   Witness N_allocated_dcrit = 3, N = 5, index 0; confirmed on the library by AddressSanitizer. *)
-Theorem C14_merc_dcrit_safe_refuted : exists s h z s' h' r,
-  wf s /\ (0 <= z < Z.of_nat (sN s))%Z /\ hoob h = 0 /\ merc_remove s h z = (s', h', r) /\ r = RRemoved 0 /\ 0 < hoob h'.
-Proof. exact merc_dcrit_safe_refuted. Qed.
-Print Assumptions C14_merc_dcrit_safe_refuted.
+(* MERCURIUS removal never leaves dcrit (whatever N_allocated_dcrit is) nor the encounter map *)
+Theorem C14_merc_dcrit_safe : forall s h z keep s' h' r, kind h = IMerc -> eN h <= length (emap h) ->
+  hremove s h z keep = (s', h', r) -> hoob h' = hoob h.
+Proof. exact merc_remove_safe. Qed.
+Print Assumptions C14_merc_dcrit_safe.
 
-(* a removal refused because a tree exists (keep_sorted is forced for MERCURIUS) fails and leaves the
-   particles alone, but dcrit has already been shifted. Confirmed on the library. *)
-Theorem C14_merc_refused_untouched_refuted : exists s h z s' h' r,
-  merc_remove s h z = (s', h', r) /\ r = RFail /\ s' = s /\ dcrit h' <> dcrit h.
-Proof. exact merc_refused_untouched_refuted. Qed.
-Print Assumptions C14_merc_refused_untouched_refuted.
+(* removal of a particle that is in the encounter map: its entry is dropped, later entries renumbered; the
+   map remains a valid injection (strictly increasing) into [0,N-1); encounter_index is its position *)
+Theorem C14_emap_remove_valid : forall N m n p index ob m' e' ob',
+  vmap N m n -> p < n -> nth p m zd = index ->
+  emap_loop n 0 index m false (-1)%Z ob = (m', e', ob') ->
+  e' = Z.of_nat p /\ ob' = ob /\ vmap (N - 1) m' (n - 1) /\
+  forall k, k < n - 1 -> nth k m' zd = if p <=? k then (nth (S k) m zd - 1)%Z else nth k m zd.
+Proof. exact emap_remove_valid. Qed.
+Print Assumptions C14_emap_remove_valid.
+
+(* adding: index N is appended; the map stays a valid injection into [0,N+1); a valid map has <= N entries *)
+Theorem C14_emap_add_valid : forall N m m2 n, vmap N m n -> n < length m2 ->
+  (forall a, a < n -> nth a m2 zd = nth a m zd) -> vmap (S N) (upd m2 n (Z.of_nat N)) (S n).
+Proof. exact emap_add_valid. Qed.
+Print Assumptions C14_emap_add_valid.
+
+(* TRACE current_Ks reshuffle on removal: exactly the sub-matrix and inside the allocation for every
+   N in 2..7 and every index but the last (bounded, by computation) ... *)
+Theorem C14_trace_Ks_remove_bounded :
+  forallb (fun n => forallb (fun i => ks_case_ok n i) (seq 0 (n - 1))) (seq 2 6) = true.
+Proof. exact ks_remove_ok_bounded. Qed.
+Print Assumptions C14_trace_Ks_remove_bounded.
+(* ... and misaligned when the LAST particle is removed (witness N = 3, index 2; confirmed on the library) *)
+Theorem C14_trace_Ks_remove_last_refuted : exists n, 2 <= n /\ ks_case_ok n (n - 1) = false.
+Proof. exact ks_remove_last_refuted. Qed.
+Print Assumptions C14_trace_Ks_remove_last_refuted.
 
 (* Non-vacuity: a reachable state with a STALE lookup table (4 entries for 3 particles: (9 -> slot 3) points
    past N, (5 -> slot 0) points at a particle that now carries hash 0), reached through an unsorted removal of
